@@ -5,6 +5,11 @@ import NurbsVerif.Lemmas.LinalgHelpers
 import NurbsVerif.Lemmas.LinalgCache
 import NurbsVerif.Lemmas.LinalgSDD
 import NurbsVerif.Lemmas.LinalgGuards
+import NurbsVerif.Lemmas.PivotMax
+import NurbsVerif.Lemmas.PivotDet
+import NurbsVerif.Lemmas.LUMinors
+import NurbsVerif.Lemmas.LUMinorsSDD
+import NurbsVerif.Lemmas.LUCollocOne
 import NurbsVerif.Driver.Linalg
 
 /-!
@@ -152,7 +157,8 @@ theorem matrixInverse_correct (m X : List (List K)) (hok : matrixInverseOk m = t
     hypothesis that Doolittle on the row-permuted matrix meets no zero pivot.  The hypothesis cannot
     be dropped for the code as it is: without it the routine still returns a number (`0`), which is
     wrong for the non-singular F-16b witness below.  Missing for the full property: real partial
-    pivoting in the code (then the hypothesis follows from non-singularity). -/
+    pivoting in the code (then the hypothesis follows from non-singularity).  The exact region on which the
+    routine is right is characterised below (`matrixDeterminant_eq_det_iff`, `…_iff_minors`, `…_le_two`, `…_three`). -/
 theorem matrixDeterminant_eq_det_partial (m : List (List K)) (hsq : isSquare m = true)
     (hpiv : ∀ j, j < m.length → (doolittle (ent (matrixPivot m).mp) m.length).U j j ≠ 0) :
     matrixDeterminant m = (toMat m.length m.length m).det :=
@@ -165,6 +171,192 @@ theorem matrixPivot_sign (m : List (List K)) (hsq : isSquare m = true) :
       = pivotSign (matrixPivot m) * (toMat m.length m.length m).det := by
   rw [matrixPivot_det, pivotSign, ← Lin.neg_one_pow_eq_ite]
 end ordered
+
+/-! ### what the pivoting loop guarantees; zero pivots and leading principal minors; when the determinant is right -/
+section minors
+variable {K : Type} [Field K] [DecidableEq K]
+
+/-- **Doolittle (no pivoting) meets no zero pivot iff every leading principal minor is non-zero** (any size; the
+    minor of size `k` is the determinant of the rows and columns `0 … k-1`). -/
+theorem doolittle_pivots_iff_minors (A : ℕ → ℕ → K) (n : ℕ) :
+    (∀ j, j < n → (doolittle A n).U j j ≠ 0) ↔
+      ∀ k, 1 ≤ k → k ≤ n → (Matrix.of fun (i j : Fin k) => A i j).det ≠ 0 :=
+  Lin.pivots_ne_zero_iff_minors A n
+
+/-- … more precisely the leading principal minor of size `m` is the product of the first `m` pivots as soon as the
+    first `m - 1` pivots do not vanish, so each pivot is the quotient of two consecutive minors. -/
+theorem doolittle_minor_eq_prod_pivots (A : ℕ → ℕ → K) (n m : ℕ) (hm : m ≤ n)
+    (hp : ∀ t, t + 1 < m → (doolittle A n).U t t ≠ 0) :
+    (Matrix.of fun (i j : Fin m) => A i j).det = ∏ t ∈ range m, (doolittle A n).U t t :=
+  Lin.leadMinor_eq_prod A n m hm hp
+
+/-- **`lu_solve` returns (and solves) whenever all leading principal minors of the square matrix are non-zero** – the
+    explicit form of the hypothesis under which the plain solver works; non-singularity alone is not enough
+    (`[[0,1],[1,0]]`, see the example below). -/
+theorem luSolve_returns_of_minors (A b : List (List K)) (hok : luSolveOk A b = true) (hb : b.length = A.length)
+    (hmin : ∀ k, 1 ≤ k → k ≤ A.length → (toMat k k A).det ≠ 0) :
+    ∃ x, luSolve A b = some x ∧
+      toMat A.length A.length A * toMat A.length (b.headD []).length x = toMat A.length (b.headD []).length b := by
+  obtain ⟨x, hx⟩ := luSolve_isSome A b hb (Lin.pivots_ne_zero_of_minors (ent A) A.length hmin)
+  exact ⟨x, hx, toMat_mul_of_sums A x b _ _ (Lin.luSolve_correct A b x hb hx).2.2⟩
+
+/-- … and conversely, when `lu_solve` returns (for a right-hand side with at least one column) every leading principal
+    minor is non-zero. -/
+theorem luSolve_returns_only_if_minors (A b x : List (List K)) (hok : luSolveOk A b = true) (hb : b.length = A.length)
+    (hd : 0 < (b.headD []).length) (h : luSolve A b = some x) :
+    ∀ k, k ≤ A.length → (toMat k k A).det ≠ 0 :=
+  Lin.minors_ne_zero_of_pivots (ent A) A.length ((Lin.luSolve_correct A b x hb h).2.1 hd)
+
+end minors
+
+section pivoting
+variable {K : Type} [Field K] [LinearOrder K]
+
+/-- **max-pivot property of `matrix_pivot`** (square input): in the RETURNED matrix every diagonal entry has the largest
+    absolute value among the entries of its column on and below the diagonal, `|mp[i][j]| ≤ |mp[j][j]|` for `i ≥ j`.
+    This is exactly what the loop guarantees: for column `j` it takes the first row of maximal `|mp[i][j]|`, `i ≥ j`, in
+    the partially permuted INPUT matrix (later exchanges only move rows below `j`); nothing is eliminated in between, so
+    it is not the partial pivoting of Gaussian elimination and does not prevent a zero Doolittle pivot (F-16b, next
+    theorem). -/
+theorem matrixPivot_max_pivot [IsStrictOrderedRing K] (m : List (List K)) (hsq : isSquare m = true) (j i : ℕ)
+    (hji : j ≤ i) (hi : i < m.length) :
+    |ent (matrixPivot m).mp i j| ≤ |ent (matrixPivot m).mp j j| :=
+  Lin.matrixPivot_max m j i hji hi
+
+/-- the inner loop: the row chosen for column `j` lies in `[j, n)` and carries a maximal `|mp[i][j]|`, `i ≥ j` -/
+theorem argMaxAbs_is_max [IsStrictOrderedRing K] (mp : List (List K)) (j n : ℕ) (hj : j < n) :
+    j ≤ argMaxAbs mp j n ∧ argMaxAbs mp j n < n ∧
+    ∀ i, j ≤ i → i < n → |ent mp i j| ≤ |ent mp (argMaxAbs mp j n) j| :=
+  Lin.argMaxAbs_spec mp j n hj
+
+/-- **the sign returned by `matrix_pivot(m, sign=True)` is `det P`** of the returned permutation matrix; together with
+    `mp = P·m` (`matrixPivot_permutation_matrix`) this gives `det mp = sign · det m` (`matrixPivot_sign`), which is what
+    `matrix_determinant = sign · ∏ U[i][i]` relies on. -/
+theorem matrixPivot_sign_eq_det_P (m : List (List K)) (hsq : isSquare m = true) :
+    pivotSign (matrixPivot m) = (toMat m.length m.length (matrixPivot m).p).det :=
+  Lin.matrixPivot_sign_eq_det_p m
+
+/-- **`matrix_determinant` of a square matrix is the determinant iff Doolittle on the row-permuted matrix meets no zero
+    pivot or the matrix is singular**: after a zero pivot the routine multiplies the diagonal all the same and returns
+    `0`. -/
+theorem matrixDeterminant_eq_det_iff (m : List (List K)) (hsq : isSquare m = true) :
+    matrixDeterminant m = (toMat m.length m.length m).det ↔
+      (∀ j, j < m.length → (doolittle (ent (matrixPivot m).mp) m.length).U j j ≠ 0) ∨
+      (toMat m.length m.length m).det = 0 :=
+  Lin.matrixDeterminant_eq_det_iff m
+
+/-- **all leading principal minors of the row-permuted matrix `P·m` non-zero ⇒ no zero pivot ⇒ `matrix_determinant` is
+    the determinant.** -/
+theorem matrixDeterminant_eq_det_of_minors (m : List (List K)) (hsq : isSquare m = true)
+    (h : ∀ k, 1 ≤ k → k ≤ m.length → (toMat k k (matrixPivot m).mp).det ≠ 0) :
+    matrixDeterminant m = (toMat m.length m.length m).det :=
+  Lin.matrixDeterminant_eq_det_of_minors m h
+
+/-- **Complete characterisation (every size): `matrix_determinant m = det m` iff `m` is singular or no leading
+    principal minor of `P·m` of a size `2 … n-1` vanishes.**  (The minors of size `1` and `n` of `P·m` cannot vanish for a
+    non-singular `m`: the first by the max-pivot property, the last is `± det m`.)  So the routine is wrong exactly on
+    the non-singular matrices whose pivoted form has a vanishing inner leading minor – the F-16b region. -/
+theorem matrixDeterminant_eq_det_iff_minors [IsStrictOrderedRing K] (m : List (List K)) (hsq : isSquare m = true) :
+    matrixDeterminant m = (toMat m.length m.length m).det ↔
+      (toMat m.length m.length m).det = 0 ∨
+      ∀ k, 2 ≤ k → k < m.length → (toMat k k (matrixPivot m).mp).det ≠ 0 :=
+  Lin.matrixDeterminant_eq_det_iff_minors m
+
+/-- **sizes 1 and 2: `matrix_determinant` is the determinant, no hypothesis.** -/
+theorem matrixDeterminant_eq_det_le_two [IsStrictOrderedRing K] (m : List (List K)) (hsq : isSquare m = true)
+    (hn : m.length ≤ 2) : matrixDeterminant m = (toMat m.length m.length m).det :=
+  Lin.matrixDeterminant_eq_det_le_two m hn
+
+/-- **size 3: `matrix_determinant` is the determinant iff the matrix is singular or the leading 2 × 2 minor of the
+    row-permuted matrix is non-zero.** -/
+theorem matrixDeterminant_eq_det_three [IsStrictOrderedRing K] (m : List (List K)) (hsq : isSquare m = true)
+    (hn : m.length = 3) :
+    matrixDeterminant m = (toMat m.length m.length m).det ↔
+      (toMat m.length m.length m).det = 0 ∨
+      ent (matrixPivot m).mp 0 0 * ent (matrixPivot m).mp 1 1
+        - ent (matrixPivot m).mp 0 1 * ent (matrixPivot m).mp 1 0 ≠ 0 :=
+  Lin.matrixDeterminant_eq_det_three m hn
+
+/-- **The plain LU solver always returns a result for strictly COLUMN diagonally dominant square matrices** as well
+    (the property text says "strictly diagonally dominant"; `luSolve_sdd` is the row version, this is the column
+    version: the pivots of `A` and of `Aᵀ` vanish together because the leading principal minors are the same). -/
+theorem luSolve_sdd_col [IsStrictOrderedRing K] (A b : List (List K)) (hok : luSolveOk A b = true)
+    (hb : b.length = A.length) (hsdd : SDDcol (ent A) A.length) :
+    ∃ x, luSolve A b = some x ∧
+      toMat A.length A.length A * toMat A.length (b.headD []).length x = toMat A.length (b.headD []).length b := by
+  obtain ⟨x, hx⟩ := luSolve_isSome A b hb (sddCol_pivots_ne_zero (ent A) A.length hsdd)
+  exact ⟨x, hx, toMat_mul_of_sums A x b _ _ (Lin.luSolve_correct A b x hb hx).2.2⟩
+
+/-- the two dominance hypotheses written out (`SDD`, `SDDcol` are abbreviations of these sums) -/
+theorem sdd_unfold [IsStrictOrderedRing K] (A : ℕ → ℕ → K) (n : ℕ) :
+    (SDD A n ↔ ∀ i, i < n → ∑ j ∈ (range n).filter (· ≠ i), |A i j| < |A i i|) ∧
+    (SDDcol A n ↔ ∀ j, j < n → ∑ i ∈ (range n).filter (· ≠ j), |A i j| < |A j j|) :=
+  ⟨Iff.rfl, Iff.rfl⟩
+
+/-- Levy–Desplanques for the leading blocks: every leading principal minor of a strictly (row) diagonally dominant
+    matrix is non-zero (the Schur-complement argument: dominance survives an elimination step). -/
+theorem sdd_minors_ne_zero [IsStrictOrderedRing K] (A : List (List K)) (hsdd : SDD (ent A) A.length) (k : ℕ)
+    (hk : k ≤ A.length) : (toMat k k A).det ≠ 0 :=
+  Lin.sdd_minors_ne_zero (ent A) A.length hsdd k hk
+
+/-! ### spline collocation matrices -/
+
+/-- **Spline collocation matrices, general degree: the hypothesis stated explicitly.**  `lu_solve` returns the control
+    points of `interpolate_curve` iff (one direction shown) the leading principal minors of the collocation matrix
+    `_build_coeff_matrix` builds are non-zero.  That they are for strictly increasing parameters and the averaged knot
+    vector (total positivity of B-spline collocation matrices + Schoenberg–Whitney) is NOT proved here; it is proved for
+    degree 1 below and checked by the oracle on the generated interpolation problems. -/
+theorem collocation_luSolve_returns_of_minors (p : ℕ) (U : ℕ → K) (uk : List K) (pts : List (List K))
+    (hok : luSolveOk (Geomdl.buildCoeffMatrix p U uk pts.length) pts = true) (hn : uk.length = pts.length)
+    (hmin : ∀ k, 1 ≤ k → k ≤ pts.length → (toMat k k (Geomdl.buildCoeffMatrix p U uk pts.length)).det ≠ 0) :
+    ∃ cp, luSolve (Geomdl.buildCoeffMatrix p U uk pts.length) pts = some cp := by
+  have hl : (Geomdl.buildCoeffMatrix p U uk pts.length).length = pts.length := by simp [Geomdl.buildCoeffMatrix, hn]
+  exact luSolve_isSome _ pts hl.symm (Lin.pivots_ne_zero_of_minors _ _ (by rw [hl]; exact hmin))
+
+/-- **Degree 1: the collocation matrix `_build_coeff_matrix` builds for `interpolate_curve` is the identity matrix**
+    (chord-length parameters of data whose consecutive points are distinct, averaged knot vector with `1.0/degree = 1`:
+    every parameter is a knot, the hat functions are `1` at their own node and `0` at the others). -/
+theorem collocation_degree_one_identity [IsStrictOrderedRing K] (cds : List K) (hne : 1 ≤ cds.length)
+    (hpos : ∀ x ∈ cds, 0 < x) :
+    Geomdl.buildCoeffMatrix 1 (Geomdl.fnOf (Geomdl.computeKnotVector 1 (cds.length + 1) (Geomdl.computeParams cds) 1))
+      (Geomdl.computeParams cds) (cds.length + 1) = identity (cds.length + 1) :=
+  Geomdl.interpolateCurve_one_matrix cds hne hpos
+
+/-- the same for each direction of `interpolate_surface` (parameters averaged over the data lines) -/
+theorem collocation_degree_one_identity_surface [IsStrictOrderedRing K] (n : ℕ) (cdsList : List (List K)) (hn : 2 ≤ n)
+    (hc : cdsList ≠ [] ∧ ∀ c ∈ cdsList, c.length + 1 = n ∧ ∀ x ∈ c, 0 < x) :
+    Geomdl.buildCoeffMatrix 1 (Geomdl.fnOf (Geomdl.computeKnotVector 1 n (Geomdl.averageParams cdsList n) 1))
+      (Geomdl.averageParams cdsList n) n = identity n :=
+  Geomdl.interpolateSurface_one_matrix n cdsList hn hc
+
+/-- `lu_solve` on the identity matrix returns the right-hand side (every size, every number of columns) -/
+theorem luSolve_identity [IsStrictOrderedRing K] (n : ℕ) (b : List (List K)) (hb : b.length = n) :
+    ∃ x, luSolve (identity n : List (List K)) b = some x ∧ x.length = n ∧
+      ∀ i, i < n → ∀ c, c < (b.headD []).length → ent x i c = ent b i c :=
+  Geomdl.luSolve_identity n b hb
+
+/-- **The plain LU solver always returns a result for the spline collocation matrices of degree 1**:
+    `interpolate_curve(points, 1)` on an admissible input whose consecutive points are distinct returns, and the control
+    points are the data points. -/
+theorem interpolateCurve_degree_one_returns [IsStrictOrderedRing K] (pts : List (List K)) (cds : List K)
+    (hg : Geomdl.InterpCurveOk 1 pts cds) (hpos : ∀ x ∈ cds, 0 < x) :
+    ∃ cp, Geomdl.interpolateCurve 1 pts cds 1
+        = some (Geomdl.computeKnotVector 1 pts.length (Geomdl.computeParams cds) 1, cp) ∧
+      cp.length = pts.length ∧ ∀ i, i < pts.length → ∀ c, c < (pts.headD []).length → ent cp i c = ent pts i c :=
+  Geomdl.interpolateCurve_one_returns pts cds hg hpos
+end pivoting
+
+/-- **The max-pivot property does not prevent a zero Doolittle pivot** (F-16b): `[[1,1,0],[1,1,1],[0,1,1]]` is returned
+    unchanged by `matrix_pivot` (every diagonal entry is maximal in its column on and below the diagonal), its second
+    Doolittle pivot is `0`, its leading 2 × 2 minor is `0`, its determinant is `-1`.
+    (Closed witness check: a statement about this one concrete input, decided by evaluation.) -/
+theorem maxPivot_does_not_prevent_zero_pivot :
+    (matrixPivot ([[1,1,0],[1,1,1],[0,1,1]] : List (List Rat))).mp = [[1,1,0],[1,1,1],[0,1,1]] ∧
+    (doolittle (ent ([[1,1,0],[1,1,1],[0,1,1]] : List (List Rat))) 3).U 1 1 = 0 ∧
+    ent ([[1,1,0],[1,1,1],[0,1,1]] : List (List Rat)) 0 0 * ent ([[1,1,0],[1,1,1],[0,1,1]] : List (List Rat)) 1 1
+      - ent ([[1,1,0],[1,1,1],[0,1,1]] : List (List Rat)) 0 1 * ent ([[1,1,0],[1,1,1],[0,1,1]] : List (List Rat)) 1 0 = 0 ∧
+    detLaplace 3 ([[1,1,0],[1,1,1],[0,1,1]] : List (List Rat)) = -1 := by
+  decide +kernel
 
 /-! ### history independence (the memoised identity as explicit state) -/
 section history
@@ -396,6 +588,31 @@ example : SDD (ent ([[3,1,-1],[1,-4,2],[0,1,2]] : List (List ℚ))) 3 := by
   have : i = 0 ∨ i = 1 ∨ i = 2 := by omega
   rcases this with rfl | rfl | rfl <;>
     norm_num [Finset.sum_filter, Finset.sum_range_succ, ent]
+/-- the minors hypothesis: a matrix that is not diagonally dominant but has non-zero leading principal minors (1, -2);
+    and a non-singular matrix on which the plain solver raises (first minor 0) -/
+example : (toMat 1 1 ([[1,2],[3,4]] : List (List ℚ))).det = 1 ∧ (toMat 2 2 ([[1,2],[3,4]] : List (List ℚ))).det = -2 := by
+  constructor
+  · rw [Matrix.det_fin_one]; rfl
+  · rw [Matrix.det_fin_two]; simp [toMat, ent]; norm_num
+example : luSolve ([[1,2],[3,4]] : List (List Rat)) [[5],[6]] = some [[-4],[9/2]] ∧
+    luSolve ([[0,1],[1,0]] : List (List Rat)) [[1],[2]] = none := by decide +kernel
+/-- a strictly column (not row) diagonally dominant matrix -/
+example : SDDcol (ent ([[3,2],[1,3]] : List (List ℚ))) 2 ∧ ¬ SDD (ent ([[3,3],[1,4]] : List (List ℚ))) 2 := by
+  constructor
+  · intro i hi
+    have : i = 0 ∨ i = 1 := by omega
+    rcases this with rfl | rfl <;> norm_num [Finset.sum_filter, Finset.sum_range_succ, ent]
+  · intro h
+    have := h 0 (by norm_num)
+    norm_num [Finset.sum_filter, Finset.sum_range_succ, ent] at this
+/-- the max-pivot theorem on a matrix that needs two exchanges; the 3 × 3 determinant criterion is met -/
+example : (matrixPivot ([[1,2,0],[4,1,1],[2,7,3]] : List (List Rat))).mp = [[4,1,1],[2,7,3],[1,2,0]] ∧
+    matrixDeterminant ([[1,2,0],[4,1,1],[2,7,3]] : List (List Rat)) = -24 := by decide +kernel
+/-- degree-1 interpolation: the guard and the positivity hypothesis hold, the call returns the data points -/
+example : Geomdl.InterpCurveOk 1 ([[0,0],[1,2],[3,1]] : List (List ℚ)) [2, 3] ∧ ∀ x ∈ ([2, 3] : List ℚ), 0 < x :=
+  ⟨⟨le_refl _, by decide, by decide, by norm_num [Geomdl.sumL]⟩, by simp⟩
+example : Geomdl.interpolateCurve 1 ([[0,0],[1,2],[3,1]] : List (List Rat)) [2, 3] 1
+    = some ([0, 0, 2/5, 1, 1], [[0,0],[1,2],[3,1]]) := by decide +kernel
 /-- a cache satisfying the invariant -/
 example : CacheOk ([] : Cache Rat) := cacheOk_nil
 
